@@ -28,7 +28,8 @@ CONSTANTS
   MaxProbes,       \* probe results per target (bound)
   MaxClaims,       \* claims by requests (bound)
   BuildUnderLock,  \* TRUE: reads happen while lb.lock is held (code).  FALSE: reads before the lock (C09-2)
-  NotifyAlways     \* FALSE: rebuild only when the state changed (code)
+  NotifyAlways,    \* FALSE: rebuild only when the state changed (code)
+  CoalesceRebuilds \* FALSE: every notification rebuilds (code).  TRUE: one that finds a rebuild under way is dropped (seeded C09-6)
 
 VARIABLES
   ts,      \* ts[t] \in {"healthy","unhealthy"}                       Target.state (after deployment)
@@ -81,6 +82,12 @@ BeginBuild(t) ==                                   \* updateHealthyTargets enter
   /\ acc' = [acc EXCEPT ![t] = {}]
   /\ UNCHANGED <<ts, rot, res, nprobe, latest, claims>>
 
+SkipBuild(t) ==                                    \* variant only: TargetStateChanged returns because a rebuild is under way
+  /\ CoalesceRebuilds
+  /\ pc[t] = "applied" /\ lock # "none"
+  /\ pc' = [pc EXCEPT ![t] = "idle"]
+  /\ UNCHANGED <<ts, rot, lock, res, pos, acc, nprobe, latest, claims>>
+
 ReadState(t) ==                                    \* hook state_read; Target.State() of the next target of lb.all
   /\ pc[t] = "build" /\ pos[t] < N
   /\ LET u == Order[pos[t] + 1]
@@ -116,7 +123,7 @@ ClaimNone ==                                       \* claimTarget: rotation empt
 
 Next ==
   \/ \E t \in Targets : \/ \E good \in BOOLEAN : ProbeResult(t, good)
-                        \/ Apply(t) \/ BeginBuild(t) \/ ReadState(t) \/ ReadsDone(t) \/ Install(t)
+                        \/ Apply(t) \/ BeginBuild(t) \/ SkipBuild(t) \/ ReadState(t) \/ ReadsDone(t) \/ Install(t)
                         \/ Claim(t)
   \/ ClaimNone
 
